@@ -125,8 +125,12 @@ Fixpoint prefilter_loop (T : table) (specs : list ispec) (c : rc) (cs : list con
     end
   end.
 
+(** beyond [max_indexable] indexable conditions the subsets are not tried at
+    all: the rows are scanned *)
+Definition max_indexable : nat := 10.
 Definition prefilter (T : table) (specs : list ispec) (c : rc) (cs : list cond) : option (gset sym) :=
-  prefilter_loop T specs c cs [[]] None.
+  if Nat.ltb max_indexable (length (omap to_indexable cs)) then None
+  else prefilter_loop T specs c cs [[]] None.
 
 (** the explicit pass over the conditions *)
 Definition match_cond (c : rc) (cd : cond) (candidates : option (gset sym)) : gset sym :=
